@@ -79,7 +79,8 @@ func scaledDesc(d gen.MeshDesc, k float64) gen.MeshDesc {
 
 var ops = []string{"unweld", "unref", "flip", "flip2", "weld", "weldAfterUnweld", "nullfaces", "append", "repeat", "pointcloud",
 	"filter1", "filter2", "filter3", "filter4", "crop", "translate", "scale", "rotate", "trs", "scaleAttr", "scaleAttr2D", "translateAttr", "rotateAttr",
-	"center", "normalize", "normalize2D", "smooth", "flat", "laplacian", "split", "setidxUnref", "transformers", "scaleAlongNormal", "appendTwice"}
+	"center", "normalize", "normalize2D", "smooth", "flat", "laplacian", "split", "setidxUnref", "transformers", "scaleAlongNormal", "appendTwice",
+	"transformerAll", "transformerAll", "modify", "laplacianAxis", "smoothWeld"}
 
 var tri = []modeling.Topology{modeling.TriangleTopology}
 var pt = []modeling.Topology{modeling.PointTopology}
@@ -91,8 +92,11 @@ func genCase(t *rapid.T) Case {
 	switch op {
 	case "flip", "flip2":
 		o.Topos = tri
-	case "weld", "weldAfterUnweld", "nullfaces", "repeat", "smooth", "flat", "laplacian", "split", "scaleAlongNormal", "appendTwice":
+	case "weld", "weldAfterUnweld", "nullfaces", "repeat", "smooth", "flat", "laplacian", "split", "scaleAlongNormal", "appendTwice", "laplacianAxis", "smoothWeld":
 		o.Topos, o.NeedPos = tri, true
+	case "transformerAll":
+		o.Attrs = []gen.AttrSpec{{Name: modeling.PositionAttribute, Arity: 3}, {Name: modeling.NormalAttribute, Arity: 3}, {Name: modeling.ColorAttribute, Arity: 3},
+			{Name: modeling.TexCoordAttribute, Arity: 2}, {Name: modeling.RotationAttribute, Arity: 4}, {Name: "w", Arity: 1}}
 	case "filter1", "filter2", "filter3", "filter4", "crop":
 		o.Topos, o.NeedPos = pt, true
 	case "translate", "scale", "rotate", "trs", "scaleAttr", "translateAttr", "rotateAttr", "center", "normalize", "transformers":
@@ -118,9 +122,17 @@ func genCase(t *rapid.T) Case {
 	switch op {
 	case "weld", "weldAfterUnweld":
 		c.X = []int{rapid.IntRange(0, 4).Draw(t, "decimals")}
-	case "laplacian":
+	case "laplacian", "laplacianAxis":
 		c.X = []int{rapid.IntRange(0, 3).Draw(t, "iters")}
 		c.P[0] = rapid.SampledFrom([]float64{0, 0.25, 0.5, 1}).Draw(t, "factor")
+	case "modify":
+		c.X = []int{rapid.IntRange(0, 13).Draw(t, "pool")}
+	case "transformerAll":
+		for i := 0; i < 4; i++ {
+			c.P[i] = float64(rapid.IntRange(-16, 16).Draw(t, "tp")) / 4
+		}
+	case "smoothWeld":
+		c.P[0] = rapid.SampledFrom([]float64{0.01, 0.125, 0.3, 0.5, 2}).Draw(t, "weldDistance")
 	case "nullfaces":
 		c.P[0] = rapid.SampledFrom([]float64{0, 0.01, 0.5, 3}).Draw(t, "minArea")
 	case "repeat":
@@ -770,7 +782,13 @@ func runOp(c Case, m modeling.Mesh, P []float64, X []int, a vector3.Float64, q q
 		if oracle.Snapshot(r2) != oracle.Snapshot(meshops.Unweld(meshops.ScaleAttribute3D(m, modeling.PositionAttribute, vector3.Zero[float64](), a))) {
 			return fail("transform-chain", "Mesh.Transform chain differs from direct composition")
 		}
-	case "smooth", "flat", "laplacian":
+	case "transformerAll":
+		return runTransformers(m, P, o, fail)
+	case "modify":
+		return runModify(m, P, X, fail)
+	case "smoothWeld":
+		return runSmoothWeld(m, math.Abs(P[0]), o, fail)
+	case "smooth", "flat", "laplacian", "laplacianAxis":
 		pos := m.Float3Attribute(modeling.PositionAttribute)
 		n := pos.Len()
 		ext := 0.0 // largest coordinate: "no area" is judged relative to the model's size
@@ -841,7 +859,18 @@ func runOp(c Case, m modeling.Mesh, P []float64, X []int, a vector3.Float64, q q
 			}
 		default:
 			iters, fac := X[0], P[0]
-			r := meshops.LaplacianSmooth(m, modeling.PositionAttribute, iters, fac)
+			axisW := vector3.One[float64]()
+			r := modeling.Mesh{}
+			if c.Op == "laplacianAxis" {
+				axis := vector3.New(P[1], P[2], P[3])
+				if !(axis.Length() > 1e-9) || axis.ContainsNaN() || math.IsInf(axis.Length(), 0) {
+					axis = vector3.New(0., 1, 0)
+				}
+				axisW = axis.Normalized().Abs()
+				r = meshops.LaplacianSmoothAlongAxis(m, modeling.PositionAttribute, iters, fac, axis)
+			} else {
+				r = meshops.LaplacianSmooth(m, modeling.PositionAttribute, iters, fac)
+			}
 			if err := sameExcept(m, r, modeling.PositionAttribute, false); err != nil {
 				return fail("side-effect", "%v", err)
 			}
@@ -873,7 +902,7 @@ func runOp(c Case, m modeling.Mesh, P []float64, X []int, a vector3.Float64, q q
 					for _, k := range ks {
 						s = s.Add(cur[k])
 					}
-					cur[v] = cur[v].Add(s.Scale(1 / float64(len(ks))).Sub(cur[v]).Scale(fac))
+					cur[v] = cur[v].Add(s.Scale(1 / float64(len(ks))).Sub(cur[v]).Scale(fac).MultByVector(axisW))
 				}
 			}
 			rp := r.Float3Attribute(modeling.PositionAttribute)
